@@ -39,6 +39,10 @@ CONSTANTS
   CopyStep,  \* TRUE: the else-branch of the start wrapper reads the global once more (`_tty_lock`); FALSE: it does not (`_cell_size_lock`)
   QInit,     \* subset of BOOLEAN: terminal queries enabled / disabled (disable_queries()) when the root starts
   MaxToggle, \* how often enable_queries() / disable_queries() may be called afterwards
+  Creator,   \* <<c_1, ..., c_NT>>: 0 = the thread exists when its process starts running; u > 0 = it comes into existence
+             \* later, created by thread u of the same process at ANY moment of u's program (also inside a body)
+  Kind,      \* <<k_1, ...>>: "threading" = created through the `threading` module (visible to threading.active_count() /
+             \* enumerate()); "raw" = _thread.start_new_thread, C extensions, GUI toolkits (invisible to `threading`)
   Variant    \* "code" = as written; others are seeded regressions used to show the invariants discriminate
 
 Nil == 0 - 1
@@ -63,10 +67,12 @@ VARIABLES
   qen,     \* the root process' `_queries_enabled` (configuration; lock_tty is about terminal ACCESS -
            \* write_tty, read_tty, the urwid screen - so the protocol must not depend on it)
   ntog,    \* toggles so far
+  born,    \* the threads that exist (a process starts with the threads whose Creator is 0; "only one thread so far"
+           \* is an initial condition like any other)
   out      \* last step (self-describing edges); not part of the state identity
 
-vars == <<G, lk, plock, st, th, inq, outq, ownok, mode, qen, ntog, out>>
-View == <<G, lk, plock, st, th, inq, outq, ownok, mode, qen, ntog>>
+vars == <<G, lk, plock, st, th, inq, outq, ownok, mode, qen, ntog, born, out>>
+View == <<G, lk, plock, st, th, inq, outq, ownok, mode, qen, ntog, born>>
 
 -----------------------------------------------------------------------------
 (* Functional core *)
@@ -75,7 +81,7 @@ Frame(item) == [pc |-> IF item.k = "call" THEN "ra" ELSE "sr", a |-> Nil, b |-> 
 
 Depth(t) == Len(th[t].fr)
 Top(t) == th[t].fr[Depth(t)]
-Runnable(t) == st[ProcOf[t]] = "run" /\ Depth(t) > 0
+Runnable(t) == st[ProcOf[t]] = "run" /\ t \in born /\ Depth(t) > 0
 At(t, pc) == Runnable(t) /\ Top(t).pc = pc
 WithTop(t, f) == [th EXCEPT ![t].fr[Depth(t)] = f]
 
@@ -94,7 +100,9 @@ AcqTarget(t) ==
   ELSE IF Top(t).pc = "ab" THEN Top(t).b
   ELSE Nil
 BlockedSet == {t \in Threads : AcqTarget(t) # Nil /\ ~CanAcq(t, AcqTarget(t))}
-AllDone == \A t \in Threads : Depth(t) = 0
+AllDone == \A t \in born : Depth(t) = 0
+\* what `threading.active_count()` answers in process p: the threads created through `threading` (the main thread is one)
+Visible(p) == {u \in born : ProcOf[u] = p /\ Kind[u] = "threading"}
 
 \* after the frame on top has finished: resume the caller's body, or go to the next program item
 PopFrame(t) ==
@@ -120,14 +128,20 @@ Init ==
   /\ inq = <<>> /\ outq = <<>> /\ ownok = TRUE
   /\ mode \in [Children -> Modes]
   /\ qen \in QInit /\ ntog = 0
+  /\ born = {t \in Threads : Creator[t] = 0}
   /\ out = [t |-> 0, act |-> "init", req |-> <<>>, got |-> <<>>]
 
-Step(t, act) == out' = [t |-> t, act |-> act, req |-> <<>>, got |-> <<>>] /\ UNCHANGED <<qen, ntog>>
+Step(t, act) == out' = [t |-> t, act |-> act, req |-> <<>>, got |-> <<>>] /\ UNCHANGED <<qen, ntog, born>>
 
 (* ---- synchronized call ---- *)
+\* Variant "fastpath" (seeded regression of the model): "this is the only thread and no process was started, so there
+\* is nobody to exclude" - tested at entry only; the call then runs its body without any lock (a = b = Nil)
+FastPath(t) == Variant = "fastpath" /\ Cardinality(Visible(ProcOf[t])) = 1 /\ IsThreadLock(G[ProcOf[t]])
+
 DoReadA(t) ==
   /\ At(t, "ra")
-  /\ th' = WithTop(t, [Top(t) EXCEPT !.a = G[ProcOf[t]], !.pc = "aa"])
+  /\ th' = IF FastPath(t) THEN WithTop(t, [Top(t) EXCEPT !.pc = "bd"])
+           ELSE WithTop(t, [Top(t) EXCEPT !.a = G[ProcOf[t]], !.pc = "aa"])
   /\ Step(t, "ReadA")
   /\ UNCHANGED <<G, lk, plock, st, inq, outq, ownok, mode>>
 
@@ -166,7 +180,7 @@ DoWrite(t) ==
   /\ inq' = Append(inq, Req(t))
   /\ th' = WithTop(t, [Top(t) EXCEPT !.pc = "rd"])
   /\ out' = [t |-> t, act |-> "Write", req |-> Req(t), got |-> <<>>]
-  /\ UNCHANGED <<qen, ntog>>
+  /\ UNCHANGED <<qen, ntog, born>>
   /\ UNCHANGED <<G, lk, plock, st, outq, ownok, mode>>
 
 \* ... and read the reply, then leave the body
@@ -176,19 +190,19 @@ DoRead(t) ==
   /\ ownok' = (ownok /\ Head(outq) = Req(t))
   /\ th' = WithTop(t, [Top(t) EXCEPT !.pc = IF Variant = "single" THEN "xa" ELSE "xb"])
   /\ out' = [t |-> t, act |-> "Read", req |-> Req(t), got |-> Head(outq)]
-  /\ UNCHANGED <<qen, ntog>>
+  /\ UNCHANGED <<qen, ntog, born>>
   /\ UNCHANGED <<G, lk, plock, st, inq, mode>>
 
 DoRelB(t) ==
   /\ At(t, "xb")
-  /\ lk' = Released(t, Top(t).b)
+  /\ lk' = IF Top(t).b = Nil THEN lk ELSE Released(t, Top(t).b)
   /\ th' = WithTop(t, [Top(t) EXCEPT !.pc = "xa"])
   /\ Step(t, "RelB")
   /\ UNCHANGED <<G, plock, st, inq, outq, ownok, mode>>
 
 DoRelA(t) ==
   /\ At(t, "xa")
-  /\ lk' = Released(t, Top(t).a)
+  /\ lk' = IF Top(t).a = Nil THEN lk ELSE Released(t, Top(t).a)
   /\ th' = PopFrame(t)
   /\ Step(t, "RelA")
   /\ UNCHANGED <<G, plock, st, inq, outq, ownok, mode>>
@@ -249,7 +263,7 @@ DoSCopy(t) ==
 
 DoSRel(t) ==
   /\ At(t, "sx")
-  /\ lk' = Released(t, Top(t).a)
+  /\ lk' = IF Top(t).a = Nil THEN lk ELSE Released(t, Top(t).a)
   /\ th' = WithTop(t, [Top(t) EXCEPT !.pc = "sp"])
   /\ Step(t, "SRel")
   /\ UNCHANGED <<G, plock, st, inq, outq, ownok, mode>>
@@ -270,7 +284,7 @@ DoRunWrap(c) ==
   /\ G' = [G EXCEPT ![c] = IF plock[c] # Nil /\ Variant # "norun" THEN plock[c] ELSE G[c]]
   /\ st' = [st EXCEPT ![c] = "run"]
   /\ out' = [t |-> 0, act |-> "RunWrap", req |-> <<c>>, got |-> <<>>]
-  /\ UNCHANGED <<qen, ntog>>
+  /\ UNCHANGED <<qen, ntog, born>>
   /\ UNCHANGED <<lk, plock, th, inq, outq, ownok, mode>>
 
 (* ---- the terminal answers requests in FIFO order ---- *)
@@ -279,7 +293,7 @@ DoReply ==
   /\ outq' = Append(outq, Head(inq))
   /\ inq' = Tail(inq)
   /\ out' = [t |-> 0, act |-> "Reply", req |-> Head(inq), got |-> <<>>]
-  /\ UNCHANGED <<qen, ntog>>
+  /\ UNCHANGED <<qen, ntog, born>>
   /\ UNCHANGED <<G, lk, plock, st, th, ownok, mode>>
 
 (* ---- enable_queries() / disable_queries() in the root process ---- *)
@@ -287,8 +301,35 @@ DoToggleQ ==
   /\ ntog < MaxToggle
   /\ qen' = ~qen /\ ntog' = ntog + 1
   /\ out' = [t |-> 0, act |-> "ToggleQ", req |-> <<>>, got |-> <<>>]
-  /\ UNCHANGED <<G, lk, plock, st, th, inq, outq, ownok, mode>>
+  /\ UNCHANGED <<G, lk, plock, st, th, inq, outq, ownok, mode, born>>
 
+(* ---- a thread comes into existence ---- *)
+\* Thread u is created by its creator at any moment of the creator's program - in particular while the creator (or any
+\* other thread) is inside a synchronized body, or inside the start wrapper.  From then on u runs its own program.
+DoCreate(u) ==
+  /\ u \notin born /\ Creator[u] # 0
+  /\ Runnable(Creator[u])
+  /\ born' = born \cup {u}
+  /\ out' = [t |-> Creator[u], act |-> "Create", req |-> <<u>>, got |-> <<>>]
+  /\ UNCHANGED <<G, lk, plock, st, th, inq, outq, ownok, mode, qen, ntog>>
+
+(* ---- time passes ---- *)
+\* More time than any timeout the library knows goes by while nobody moves (the thread inside a body stays inside: a long
+\* or infinite read_tty(), a slow draw_screen(), a user function decorated with lock_tty).  Whoever waits for a lock
+\* still waits: NOTHING changes - in particular the hand-over of the start wrapper (SAcqA .. SRel) stays enabled only
+\* when the old lock is free, whatever the wait.  Variant "boundedwait" (seeded regression of the model): a start
+\* wrapper that has waited long enough goes on without the lock.
+DoElapse ==
+  /\ BlockedSet # {}
+  /\ IF Variant = "boundedwait" /\ \E t \in BlockedSet : Top(t).pc = "sa"
+       THEN LET t == CHOOSE x \in BlockedSet : Top(x).pc = "sa" IN
+            th' = WithTop(t, [Top(t) EXCEPT !.a = Nil, !.pc = "st"])
+       ELSE UNCHANGED th
+  /\ out' = [t |-> 0, act |-> "Elapse", req |-> <<>>, got |-> <<>>]
+  /\ UNCHANGED <<G, lk, plock, st, inq, outq, ownok, mode, qen, ntog, born>>
+
+Create == \E u \in Threads : DoCreate(u)
+Elapse == DoElapse
 ReadA == \E t \in Threads : DoReadA(t)
 AcqA == \E t \in Threads : DoAcqA(t)
 ReadB == \E t \in Threads : DoReadB(t)
@@ -312,6 +353,7 @@ ToggleQ == DoToggleQ
 Next ==
   \/ ReadA \/ AcqA \/ ReadB \/ AcqB \/ Nest \/ Write \/ Read \/ RelB \/ RelA
   \/ SReadA \/ SAcqA \/ STest \/ SNew \/ SCopy \/ SRel \/ SSpawn \/ RunWrap \/ Reply \/ ToggleQ
+  \/ Create \/ Elapse
 
 Spec == Init /\ [][Next]_vars
 
@@ -329,7 +371,7 @@ Reentrant == \A t \in Threads : AcqTarget(t) # Nil /\ lk[AcqTarget(t)].o = t => 
 
 \* nobody waits forever: some step is possible until every thread of every started process has finished
 \* (threads of a process that this configuration never starts do not count)
-Finished == \A t \in Threads : Depth(t) = 0 \/ st[ProcOf[t]] = "none"
+Finished == \A t \in Threads : Depth(t) = 0 \/ st[ProcOf[t]] = "none" \/ t \notin born
 NoDeadlock ==
   \/ Finished
   \/ inq # <<>>
@@ -339,6 +381,11 @@ NoDeadlock ==
        /\ (AcqTarget(t) # Nil => CanAcq(t, AcqTarget(t)))
        /\ (Top(t).pc = "rd" => outq # <<>>)
        /\ (Top(t).pc = "sp" => st[Top(t).c] = "none")
+
+\* the hand-over: from the test of the global to the release, the start wrapper OWNS the lock it read the global to be -
+\* so no thread is inside a body guarded by the old lock when the global is rebound, however long that thread stays
+HandOverHeld ==
+  \A t \in Threads : Runnable(t) /\ Top(t).pc \in {"st", "sn", "sc", "sx"} => Top(t).a # Nil /\ lk[Top(t).a].o = t
 
 \* everything is released at the end, and nothing is left in the terminal queues
 CleanEnd == AllDone => (\A l \in Locks : lk[l].n = 0) /\ inq = <<>> /\ outq = <<>>
@@ -357,5 +404,6 @@ TypeOK ==
   /\ G \in [Procs -> Locks]
   /\ \A l \in Locks : lk[l].o \in Threads \cup {0} /\ lk[l].n \in 0..4
   /\ \A p \in Procs : plock[p] \in Locks \cup {Nil}
+  /\ born \subseteq Threads
 
 =============================================================================
